@@ -20,7 +20,7 @@ Theorem C19_whole_replies_only :
     SInv H ed_pk ed_sign cfg lt oi oc s'
     /\ Forall (fun o => exists ds now,
                  (length ds <= batch_size cfg)%nat
-                 /\ so_sent o = spec_batch_sent H ed_pk ed_sign (ltk_srv_value H ed_pk lt) lt oi oc now ds) outs.
+                 /\ so_sent o = spec_batch_sent_f H ed_pk ed_sign (send_fails cfg) (ltk_srv_value H ed_pk lt) lt oi oc now ds) outs.
 Proof. exact whole_batches. Qed.
 Print Assumptions C19_whole_replies_only.
 
